@@ -351,7 +351,7 @@ def _case(rng, kind=None, fluxp=None, zerop=None, gridp=None, method='?', ivp=No
 
 
 # ================================================================ real code
-def _run_real(c, record=True):
+def _run_real(c, record=True, extra=None):
     """call the real combine1fiber; returns {'out': (flux, ivar)} or {'err': kind}, plus the recorded iterfit calls"""
     from pydl.pydlspec2d import spec2d
     x, fl, iv, newx = _arrays(c)
@@ -379,9 +379,9 @@ def _run_real(c, record=True):
             warnings.simplefilter('ignore')
             if record:
                 with mock.patch.object(spec2d, 'iterfit', wrapper):
-                    out = spec2d.combine1fiber(x, fl, newx, objivar=iv, **_kw(c))
+                    out = spec2d.combine1fiber(x, fl, newx, objivar=iv, **_kw(c), **(extra(x) if extra else {}))
             else:
-                out = spec2d.combine1fiber(x, fl, newx, objivar=iv, **_kw(c))
+                out = spec2d.combine1fiber(x, fl, newx, objivar=iv, **_kw(c), **(extra(x) if extra else {}))
         res['out'] = (np.array(out[0], dtype='d'), np.array(out[1], dtype='d'))
     except Exception as e:
         res['err'] = core.exc_kind(e)
@@ -676,6 +676,60 @@ def _combine(ctx, cases, search=False):
         for sig, what in _oracle(c, real):
             small = _shrink(c, sig)
             ctx.violate(sig, what, dict(small, stream='c1f'))
+
+
+# ================================================================ auxiliary keywords (finalmask, indisp + skyflux, verbose)
+def _extra_kw(which, seed):
+    """IDL keywords of combine1fiber that feed only the auxiliary outputs (pixel masks, dispersion, sky): arrays of the shape of
+    inloglam.  The two returned arrays do not depend on them (the model has no such inputs)."""
+    def make(x):
+        r = np.random.RandomState(seed)
+        kw = {}
+        if which in ('finalmask', 'both'):
+            kw['finalmask'] = r.choice(np.array([0, 1, 1 << 24, (1 << 16) | 1, 1 << 25], dtype='i4'), size=x.shape).astype('i4')
+        if which in ('indisp', 'both'):
+            kw['indisp'] = r.uniform(0.8, 1.4, size=x.shape)
+            kw['skyflux'] = r.uniform(0.0, 5.0, size=x.shape)
+        if which == 'verbose':
+            kw['verbose'] = False
+        return kw
+    return make
+
+
+def _kwargs(ctx, cases):
+    """stream c1f:kwargs - the same call with and without the auxiliary keywords: (newflux, newivar) must be bit-identical and the
+    call must return whenever the plain call returns (the keywords are IDL's FINALMASK / INDISP / SKYFLUX; output grids that extend
+    beyond the data are the interesting ones: the mask bookkeeping indexes output pixels from input wavelengths)."""
+    for c in cases:
+        if not _in_domain(c):
+            continue
+        plain = _run_real(c, record=False)
+        which = ctx.rng.choice(['finalmask', 'finalmask', 'indisp', 'both', 'verbose'])
+        seed = ctx.rng.randrange(1 << 30)
+        withkw = _run_real(c, record=False, extra=_extra_kw(which, seed))
+        cc = dict(c, stream='c1f:kwargs', which=which, kwseed=seed)
+        t = c.get('tag', {})
+        ctx.seen({'kwargs': which, 'x0': c['x'][0][:2], 'n': len(c['x'][0]), 'newx0': c['newx'][:2], 'm': len(c['newx']), 'kind': c['kind']})
+        ctx.count('kwargs:%s' % which)
+        ctx.count('kwargs:grid:%s' % t.get('grid'))
+        if 'err' in plain:
+            ctx.count('kwargs:plain-call-refused(%s)' % plain['err'])
+            if withkw.get('err') != plain['err']:
+                ctx.disagree('c1f:kwargs:' + which, cc, withkw.get('err'), plain['err'])
+            continue
+        if 'err' in withkw:
+            ctx.count('kwargs:raised')
+            ctx.disagree('c1f:kwargs:' + which, cc, withkw['err'], 'returns')
+            ctx.violate('kwargs:exception:%s:%s' % (withkw['err'], which),
+                        'combine1fiber(..., %s=...) raised %s where the same call without the keyword returns flux and inverse variance of the '
+                        "grid's length" % (which if which != 'both' else 'finalmask=..., indisp=..., skyflux', withkw.get('msg')), cc)
+            continue
+        same = all(_bits(a) == _bits(b) for a, b in zip(plain['out'], withkw['out']))
+        ctx.count('kwargs:%s' % ('same' if same else 'differ'))
+        if not same:
+            ctx.disagree('c1f:kwargs:' + which, cc, _short(_impl_canon(withkw)), _short(_impl_canon(plain)))
+            for sig, what in _oracle(c, dict(withkw, recs=[]), meta=False):
+                ctx.violate('kwargs:' + sig, 'with %s given: %s' % (which, what), cc)
 
 
 # ================================================================ self-contained model run (no recorded iterfit answers)
@@ -1098,6 +1152,7 @@ def run(ctx):
     try:
         _grouping(ctx)
         _combine(ctx, cases)
+        _kwargs(ctx, cases[:ctx.n(60, 1200)])
         _self(ctx, _self_cases(ctx))
         _preprocess(ctx)
     except core.DriverError as e:
@@ -1114,7 +1169,16 @@ def run(ctx):
 def replay(ctx, case):
     _setup(ctx)
     core.audit(ctx, LEAN_MODULES, THEOREMS)
-    if case.get('stream') in ('c1f', 'c1f:self'):
+    if case.get('stream') == 'c1f:kwargs':
+        c = {k: v for k, v in case.items() if k not in ('stream', 'which', 'kwseed')}
+        c.setdefault('tag', {})
+        plain = _run_real(c, record=False)
+        withkw = _run_real(c, record=False, extra=_extra_kw(case['which'], case['kwseed']))
+        if 'err' in withkw and 'err' not in plain:
+            ctx.violate('kwargs:exception:%s:%s' % (withkw['err'], case['which']), 'combine1fiber raised %s with the keyword, returns without it' % withkw.get('msg'), case)
+        elif 'out' in plain and not all(_bits(a) == _bits(b) for a, b in zip(plain['out'], withkw['out'])):
+            ctx.disagree('c1f:kwargs:' + case['which'], case, 'differs', 'plain call')
+    elif case.get('stream') in ('c1f', 'c1f:self'):
         c = {k: v for k, v in case.items() if k not in ('stream', 'call')}
         c.setdefault('tag', {})
         (_self if case['stream'] == 'c1f:self' else _combine)(ctx, [c])
